@@ -273,7 +273,12 @@ func (p *Provider) loadRuleSet(fileName string) (*config2.RuleSet, error) {
 			CausedBy(err)
 	}
 
-	stat, _ := os.Stat(fileName)
+	// the information is taken from the opened file, as the file may be gone in the meantime
+	stat, err := file.Stat()
+	if err != nil {
+		return nil, errorchain.NewWithMessagef(heimdall.ErrInternal,
+			"failed to get information about file %s", fileName).CausedBy(err)
+	}
 
 	ruleSet.Hash = md.Sum(nil)
 	ruleSet.Source = "file_system:" + fileName
